@@ -405,7 +405,19 @@ def replay(job):
                     c[0] = rnd.choice([0, 2])
                     c[1] = 4
                 cands.append(bytes(c))
+        # blocks that are valid frames under the reader's key but carry a payload of any other length (the symbolic run sees
+        # the decrypted frame through the uninterpreted cipher; here the real encryptor produces such frames)
+        if job["block"] in ("cust", "update") and dec in ("cust", "code", "wrong"):
+            encs = [b2.SoftwareCustKeyEncryptor(ck), b2.ConfigSecurityCodeEncryptor(code)] if dec != "wrong" else [b2.SoftwareCustKeyEncryptor(bytes(16)), b2.ConfigSecurityCodeEncryptor(bytes(8))]
+            for e_ in encs:
+                for k in list(range(0, 41)) + [100, 200, 237]:
+                    try:
+                        cands.append(e_.encrypt(bytes((7 * i + k) & 0xFF for i in range(k))))
+                    except Exception:
+                        pass
         for content in cands:
+            if len(content) > 255:
+                continue
             for order in (0, 1):
                 hdr = bytes([TAG, len(content)]) + content
                 hdr = hdr + first if order == 0 else first + hdr
